@@ -60,7 +60,8 @@ NoPrf == [flavour |-> "none", covers |-> "none", optout |-> FALSE]
 
 Grp(role, kind, zone, rdata, prf, wild, depth) ==
   [role |-> role, kind |-> kind, zone |-> zone, rdata |-> rdata, sigs |-> {},
-   prf |-> prf, wild |-> wild, depth |-> depth]
+   prf |-> prf, wild |-> wild, depth |-> depth,
+   bad |-> [n |-> 0, first |-> FALSE]]   \* extra RRSIGs by the right key that do not verify
 
 Signd(sh, g) == IF Signed(sh, g.zone) THEN [g EXCEPT !.sigs = {Sig(g.zone, g, "ok")}] ELSE g
 
@@ -97,6 +98,10 @@ HonestAnswer(sh, den, qk) ==
     [] qk = "cname1"   -> <<Data(sh, "cname1", z, 1, FALSE), Data(sh, "ans", z, 1, FALSE)>>
     [] qk = "cname2"   -> <<Data(sh, "cname1", z, 1, FALSE), Data(sh, "cname2", z, 1, FALSE),
                             Data(sh, "ans", z, 1, FALSE)>>
+    \* DNAME in the leaf zone; the synthesized CNAME travels with the DNAME group
+    [] qk = "dname"    -> <<Data(sh, "dname", z, 1, FALSE), Data(sh, "ans", z, 2, FALSE)>>
+    \* DNAME in the unsigned sibling zone pointing into the leaf zone
+    [] qk = "dnamex"   -> <<Data(sh, "dname", "plain", 1, FALSE), Data(sh, "ans", z, 1, FALSE)>>
     [] qk = "ds" ->
          IF LeafSecure(sh)
          THEN <<Signd(sh, Grp("ans", "ds", p, Key(z), NoPrf, FALSE, 1))>>
@@ -135,6 +140,10 @@ SigValid(s, g, keys) == /\ s.sg.key \in keys
                         /\ s.sg = Sign(s.sg.key, Content(g))
                         /\ TimeOk(s)
 TheSig(g) == CHOOSE s \in g.sigs : TRUE
+\* max_bad_signatures (default): failed verifications tolerated per RRset;
+\* the failing RRSIGs count only when they are tried before the good one
+MaxBad == 1
+TooManyBad(g) == g.bad.first /\ g.bad.n > MaxBad
 
 Meet(a, b) == IF "Bogus" \in {a, b} THEN "Bogus"
               ELSE IF "Insecure" \in {a, b} THEN "Insecure" ELSE "Secure"
@@ -205,7 +214,7 @@ SignedRole(r) == Has(inbox, r) /\ Get(inbox, r).sigs # {}
 
 Adv_DropRrsig ==
   /\ pc = "wire"
-  /\ \E r \in {"ans", "cname1", "soa", "nd", "nx", "wc"} :
+  /\ \E r \in {"ans", "cname1", "dname", "soa", "nd", "nx", "wc"} :
         /\ CanAdv("DropRrsig") /\ SignedRole(r)
         /\ Rewrite("DropRrsig", r, MapRole(inbox, r, LAMBDA g : [g EXCEPT !.sigs = {}]))
 
@@ -224,7 +233,7 @@ Adv_ReplaceRdata ==
 \* re-signed by the (validly delegated) sibling zone "other"
 Adv_WrongSigner ==
   /\ pc = "wire"
-  /\ \E r \in {"ans", "soa", "nx"} :
+  /\ \E r \in {"ans", "dname", "soa", "nx"} :
         /\ CanAdv("WrongSigner") /\ SignedRole(r)
         /\ Rewrite("WrongSigner", r,
               MapRole(inbox, r, LAMBDA g : [g EXCEPT !.sigs =
@@ -236,10 +245,21 @@ Retime(act, time, r) ==
                         {[TheSig(g) EXCEPT !.time = time]}]))
 Adv_Expire ==
   /\ pc = "wire"
-  /\ \E r \in {"ans", "cname1", "soa", "nd", "nx"} : Retime("Expire", "expired", r)
+  /\ \E r \in {"ans", "cname1", "dname", "soa", "nd", "nx"} : Retime("Expire", "expired", r)
 Adv_NotYetValid ==
   /\ pc = "wire"
-  /\ \E r \in {"ans", "cname1", "soa", "nd", "nx"} : Retime("NotYetValid", "future", r)
+  /\ \E r \in {"ans", "cname1", "dname", "soa", "nd", "nx"} : Retime("NotYetValid", "future", r)
+
+\* n additional RRSIGs made with the right key that do not verify (expired
+\* leftovers of a re-signing run), listed before or after the genuine one.
+\* The validator tolerates MaxBad failed verifications per RRset (KeyTrap
+\* guard): up to that number nothing may change.
+Adv_AddBadSig ==
+  /\ pc = "wire"
+  /\ \E n \in {1, 2}, first \in BOOLEAN :
+        /\ CanAdv("AddBadSig") /\ SignedRole("ans")
+        /\ Rewrite("AddBadSig" \o (IF n = 1 THEN "1" ELSE "2") \o (IF first THEN "First" ELSE "Last"),
+                   "ans", MapRole(inbox, "ans", LAMBDA g : [g EXCEPT !.bad = [n |-> n, first |-> first]]))
 
 \* forged data signed with the attacker's key in the zone's name (only useful
 \* together with CorruptKey on that zone's DNSKEY fetch)
@@ -315,8 +335,8 @@ Adv_ZeroTtl ==
 \* an extra unsigned RRset of the insecure sibling zone in the answer section
 Adv_Inject ==
   /\ CanAdv("Inject") /\ pend.t = "ANS" /\ ~Has(inbox, "inj")
-  /\ LET ans == SelectSeq(inbox, LAMBDA g : g.role \in {"ans", "cname1", "cname2"})
-          aut == SelectSeq(inbox, LAMBDA g : g.role \notin {"ans", "cname1", "cname2"})
+  /\ LET ans == SelectSeq(inbox, LAMBDA g : g.role \in {"ans", "cname1", "cname2", "dname"})
+          aut == SelectSeq(inbox, LAMBDA g : g.role \notin {"ans", "cname1", "cname2", "dname"})
      IN Rewrite("Inject", "",      \* answer section: before the authority RRsets
                 ans \o <<Grp("inj", "data", "plain", "good", NoPrf, FALSE, 1)>> \o aut)
 
@@ -325,7 +345,7 @@ Adv_CnameLoop ==
   /\ Rewrite("CnameLoop", "", LoopAnswer(scn.shape))
 
 AdvNext == \/ Adv_DropRrsig \/ Adv_DropRrset \/ Adv_ReplaceRdata \/ Adv_WrongSigner
-           \/ Adv_Expire \/ Adv_NotYetValid \/ Adv_ForgeSigned \/ Adv_CorruptKey \/ Adv_CorruptDs
+           \/ Adv_Expire \/ Adv_NotYetValid \/ Adv_ForgeSigned \/ Adv_AddBadSig \/ Adv_CorruptKey \/ Adv_CorruptDs
            \/ Adv_StripProof \/ Adv_ForgeNsecRange \/ Adv_SwapProof
            \/ Adv_BadNsec3Label \/ Adv_BadNsec3LabelSigned \/ Adv_ZeroCounts
            \/ Adv_ZeroTtl \/ Adv_Inject \/ Adv_CnameLoop
@@ -418,6 +438,7 @@ VerifyKey ==
                /\ LET g == Get(inbox, "ans") IN
                     /\ want \in g.rdata
                     /\ \E s \in g.sigs : s.sg.key = want /\ SigValid(s, g, {want})
+                    /\ ~TooManyBad(g)
      IN IF ok THEN SetNode(z, "Secure", Get(inbox, "ans").rdata)
         ELSE SetNode(z, "Bogus", {})
   /\ UNCHANGED <<scn, budget, advlog, pend, inbox, msg, gi, gst, dsd, probes, served,
@@ -437,7 +458,7 @@ VerifyDs ==
      IN
      IF hasDs
      THEN LET g == Get(inbox, "ans") IN
-          IF \E s \in g.sigs : s.signer = p /\ SigValid(s, g, keys)
+          IF (\E s \in g.sigs : s.signer = p /\ SigValid(s, g, keys)) /\ ~TooManyBad(g)
           THEN /\ dsd' = g.rdata
                /\ Issue("DNSKEY", z)
                /\ UNCHANGED <<node, tkeys, ttl0, walk, result>>
@@ -480,6 +501,7 @@ GroupState(g) ==
   ELSE IF g.sigs = {} /\ OptOutSpan(g) THEN "Insecure"   \* nsec3_for_ds: opt-out span
   ELSE IF /\ g.sigs # {} /\ Target(g) \in Anc(g.zone)
           /\ \E s \in g.sigs : SigValid(s, g, tkeys[e])
+          /\ ~TooManyBad(g)
        THEN "Secure" ELSE "Bogus"
 
 CheckGroup ==
@@ -508,12 +530,15 @@ Down(role, st) == IF Get(msg, role).prf.optout THEN "Insecure" ELSE st
 CnameCount == Cardinality({i \in 1..Len(msg) : msg[i].role \in {"cname1", "cname2"}})
 \* CNAME links needed before the final name: all present?
 ChainOk == CASE scn.qk = "cname1" -> Has(msg, "cname1")
+             [] scn.qk \in {"dname", "dnamex"} -> Has(msg, "dname")
              [] scn.qk = "cname2" -> Has(msg, "cname1") /\ Has(msg, "cname2")
              [] OTHER -> TRUE
 ChainState == LET a == IF Has(msg, "cname1") THEN St("cname1") ELSE "Secure"
                   b == IF Has(msg, "cname2") /\ Has(msg, "cname1") THEN St("cname2")
                        ELSE "Secure"
-              IN Meet(a, b)
+                  \* do_cname_dname folds the state of every CNAME and DNAME it follows
+                  c == IF Has(msg, "dname") THEN St("dname") ELSE "Secure"
+              IN Meet(Meet(a, b), c)
 
 Negative(maybe) ==
   IF ~Has(msg, "soa") THEN "Bogus"
@@ -609,15 +634,17 @@ PrfOk(m, role) == Has(m, role) /\ Get(m, role).prf.covers = "ok" /\ RRsetO(Get(m
 OptOut(m, role) == Has(m, role) /\ Get(m, role).prf.optout
 
 \* the zone that answers the question
-QZone == IF scn.qk = "ds" THEN Parent(Leaf(scn.shape)) ELSE Leaf(scn.shape)
+QZone == IF scn.qk = "ds" THEN Parent(Leaf(scn.shape))
+         ELSE IF scn.qk = "dnamex" THEN "plain" ELSE Leaf(scn.shape)
 
 \* is the answer complete for the question (RFC 4035 5.4, RFC 5155 8.4-8.8)?
 Complete(m) ==
   IF IsLoop(m) THEN TRUE
   ELSE
-  CASE scn.qk \in {"positive", "cname1", "cname2"} ->
+  CASE scn.qk \in {"positive", "cname1", "cname2", "dname", "dnamex"} ->
          /\ Has(m, "ans")
-         /\ scn.qk # "positive" => Has(m, "cname1")
+         /\ scn.qk \in {"dname", "dnamex"} => Has(m, "dname")
+         /\ scn.qk \in {"cname1", "cname2"} => Has(m, "cname1")
          /\ scn.qk = "cname2" => Has(m, "cname2")
     [] scn.qk = "wildcard" -> Has(m, "ans") /\ (ChainO(QZone) = "Secure" => PrfOk(m, "nx"))
     [] scn.qk = "nodata" -> Has(m, "soa") /\ (ChainO(QZone) = "Secure" => PrfOk(m, "nd"))
@@ -641,8 +668,11 @@ Oracle == AnswerO(msg)
 NoInj(m) == SelectSeq(m, LAMBDA g : g.role # "inj")
 
 \* what the property admits for this scenario (DESIGN section 7: a set)
+\* rewrites that must not change anything: failing extra signatures within
+\* the validator's documented tolerance
+Benign == \A i \in 1..Len(advlog) : advlog[i].act \in {"AddBadSig1First", "AddBadSig1Last"}
 Allowed ==
-  IF advlog = <<>> THEN {Oracle}
+  IF Benign THEN {Oracle}
   ELSE IF Oracle = "Bogus" THEN {"Bogus"}
   ELSE {Oracle, "Bogus"}
 
@@ -654,9 +684,11 @@ SecureShape == LeafSecure(scn.shape)
 OptOutCase == scn.denial = "optout" /\ scn.qk \in {"wildcard", "nxdomain"}
 
 Soundness == Finished /\ result = "Secure" => Oracle = "Secure"
-HonestSecure == Finished /\ advlog = <<>> /\ SecureShape /\ ~OptOutCase => result = "Secure"
+HonestSecure == Finished /\ Benign /\ SecureShape /\ ~OptOutCase /\ scn.qk # "dnamex"
+                   => result = "Secure"
 InsecureNotBogus ==
-  Finished /\ advlog = <<>> /\ ~SecureShape /\ scn.qk # "ds" => result = "Insecure"
+  Finished /\ Benign /\ ((~SecureShape /\ scn.qk # "ds") \/ scn.qk = "dnamex")
+     => result = "Insecure"
 WithinAllowed == Finished => result \in Allowed
 NoPanic == result # "panic"
 MaxSteps == 80
